@@ -2,6 +2,7 @@ package checks
 
 import (
 	"fmt"
+	"os"
 	"strings"
 
 	"golang.org/x/tools/go/ssa"
@@ -383,17 +384,19 @@ func runSemPass1(cx *Ctx, carried []absint.CarriedLoc) (rs *runSem, changed []ab
 	nStepEvents := 0
 	var bpPresent bdd.Node = bdd.False
 	var goN int
+	stepSeen := false // events are in program order: a lookup before the Step of the iteration is a header test
 	for i := range tr.Events {
 		e := &tr.Events[i]
 		switch e.Kind {
 		case "Step":
 			nStepEvents++
+			stepSeen = true
 			gStep = M.Or(gStep, e.Guard)
 		case "map.get":
 			if e.Dev == "BreakPoints" {
 				want := c.Atom(fmt.Sprintf("PostStep%d(PC)", stepN), 16)
 				viaHeader := false
-				if carried != nil && e.Args[0].Equal(c.Atom("loop1.mem(cpu|PC)", 16)) {
+				if carried != nil && !stepSeen && e.Args[0].Equal(c.Atom("loop1.mem(cpu|PC)", 16)) {
 					// looked up at the loop header: PC as the previous Step left it
 					if bv, ok := ls.CarriedBack["cpu|PC"].(dom.BV); ok && bv.Equal(want) {
 						viaHeader = true
@@ -438,6 +441,14 @@ func runSemPass1(cx *Ctx, carried []absint.CarriedLoc) (rs *runSem, changed []ab
 			if bv, ok := ls.CarriedBack[k].(dom.BV); !ok || !bv.Equal(c.Atom(fmt.Sprintf("PostStep%d(%s)", stepN, p), widths[i])) {
 				rs.violations = append(rs.violations, "Run's loop changes CPU."+p+" after Step")
 			}
+		}
+	}
+	if os.Getenv("VERIF_DEBUG") != "" {
+		for k, v := range replInit {
+			fmt.Fprintln(os.Stderr, "carried init", k, c.Describe(v))
+		}
+		for k, v := range replBack {
+			fmt.Fprintln(os.Stderr, "carried back", k, c.Describe(v))
 		}
 	}
 	atFirst := func(f bdd.Node) bdd.Node { return c.Subst(f, replInit) } // at the first header
